@@ -22,6 +22,9 @@ type Ctx struct {
 	portCover    [2]bool
 	guardBusy    map[*ssa.Function]bool
 	neverNilMemo map[*types.Var]int
+	// argSubst: while the arguments of a tracker call made inside a helper are matched, what the handler passed
+	// for each of the helper's parameters
+	argSubst map[*ssa.Parameter]ssa.Value
 }
 
 // PropertySpec describes one property's rule set.
